@@ -1902,6 +1902,12 @@ void Router::markPolylineConnectorsNeedingReroutingForDeletedObstacle(
 
             }
 
+            // The point on the edge's line minimising the distance
+            // start--x--end is found from the perpendicular distances of
+            // start and end to that line, whichever sides they lie on.
+            b = fabs(b);
+            d = fabs(d);
+
             double x;
             if ((b + d) == 0)
             {
